@@ -509,12 +509,14 @@ func (w *Worker) reportViolation(kind, label string, extra *sym.Term, fr *frame)
 	eng := w.eng
 	// known-finding predicates: is the violation inside a listed finding?
 	known := ""
-	if kind == "panic" && len(w.knownSites) > 0 {
+	site := ""
+	if kind == "panic" || kind == "hang" {
 		// innermost repository (non-harness) function on the target stack
 		st := w.interp.stack
 		for k := len(st) - 1; k >= 0; k-- {
 			if isRepoPkg(st[k].Pkg) && !strings.Contains(st[k].Name(), "verif") {
 				name := st[k].String()
+				site = name
 				sites := make([]string, 0, len(w.knownSites))
 				for site := range w.knownSites {
 					sites = append(sites, site)
@@ -570,7 +572,9 @@ func (w *Worker) reportViolation(kind, label string, extra *sym.Term, fr *frame)
 			}
 		}
 	}
-	key := kind + "|" + label + "|" + known
+	// violations are de-duplicated per (kind, label, panic site, known finding): every distinct
+	// panic site is reported whatever the order in which the workers reach them
+	key := kind + "|" + label + "|" + site + "|" + known
 	eng.mu.Lock()
 	cnt := eng.violCnt[key]
 	eng.violCnt[key]++
